@@ -202,11 +202,29 @@ def run_one(cfg: dict, schedule: tuple, seed: int, depth: int) -> dict:
         # ---- warm-up ------------------------------------------------------------------------------------------
         w.phase = "warmup"
         cold = cfg["warm"] == "cold"
+        b_walked = cfg["via"] == "b-walked"
         order = ([] if cold else ["A"]) + ["C"] + [f"D{i + 1}" for i in range(cfg["k"] - 1)]
-        for name in order:
+        if b_walked:
+            # B gets to know C by walking to it: C walks to the public D1, B walks to D1, D1 introduces C to B (and asks
+            # C to puncture), B walks to what it was told.  B then has verified C from an introduction *response*.
+            assert cfg["k"] >= 2
+            if not cold:
+                w.request_intro("A", B_ADDR, style_of(cfg, "A"))
+                w.flush()
+            d1 = tuple(w.nodes["D1"].address)
+            w.request_intro("C", d1, style_of(cfg, "C"))
+            w.flush()
+            w.request_intro("B", d1, style_of(cfg, "B"))
+            w.flush()
+            w.walk_all("B")
+            w.flush()
+            walkers = [f"D{i + 1}" for i in range(1, cfg["k"] - 1)]
+        else:
+            walkers = order
+        for name in walkers:
             w.request_intro(name, B_ADDR, style_of(cfg, name))
             w.flush()
-        learnt = {n: tuple(w.ov[n].my_estimated_wan) == w.public_address_of(n) for n in order}
+        learnt = {n: tuple(w.ov[n].my_estimated_wan) == w.public_address_of(n) for n in order if n != "D1" or not b_walked}
         b_knows = w.peers_of("B")
         w.expire_sessions(B_ADDR)
         n_warm = len(w.send_log)
@@ -272,6 +290,7 @@ def run_one(cfg: dict, schedule: tuple, seed: int, depth: int) -> dict:
 
         first = connected()
         placement = "same-box" if (cfg["placement"] == "same" and x == "C") else "different"
+        how = "introducer-walked-to-peer" if (b_walked and x == "C") else "peer-walked-to-introducer"
         tx = w.kind_of[x]
         trail = (f"{cfg} introduced={x}({tx}) schedule={list(schedule)}: A walked to {walked}; "
                  f"main-round deliveries: {fmt_deliveries(main_deliv)}; drops: {fmt_drops(w, n_warm)}; "
@@ -280,7 +299,7 @@ def run_one(cfg: dict, schedule: tuple, seed: int, depth: int) -> dict:
         second = first
         if punctured_first:
             if first != (True, True):
-                viol.append((f"unreachable|{placement}|first-attempt",
+                viol.append((f"unreachable|{placement}|{how}|first-attempt",
                              f"{x}'s puncture was out before A's contact attempt arrived, yet A has {x}: {first[0]}, "
                              f"{x} has A: {first[1]}; {trail}"))
         if first != (True, True):
@@ -288,13 +307,13 @@ def run_one(cfg: dict, schedule: tuple, seed: int, depth: int) -> dict:
             w.flush()
             second = connected()
             if second != (True, True) and not (punctured_first and first != (True, True)):
-                viol.append((f"unreachable|{placement}|further-walk",
+                viol.append((f"unreachable|{placement}|{how}|further-walk",
                              f"after one further walk of A to {again} A has {x}: {second[0]}, {x} has A: {second[1]}; "
                              f"{trail}; later drops: {fmt_drops(w, n_warm)[-6:]}"))
         if placement == "same-box":
             hp = [r for r in w.drop_log if r["phase"] == "main" and r["reason"] == "hairpin" and r["from"] in ("A", x)]
             if hp:
-                viol.append(("same-box:wan-address-used",
+                viol.append((f"same-box:wan-address-used|{how}",
                              f"peers on one LAN addressed each other through their box's public IP: "
                              f"{[(r['from'], r['kind'], r['dst']) for r in hp]}; {trail}"))
         for name, etype, text in w.logged:
@@ -309,7 +328,7 @@ def run_one(cfg: dict, schedule: tuple, seed: int, depth: int) -> dict:
         reasons = tuple(sorted({r["reason"] for r in w.drop_log if r["phase"] == "main"}))
         learnt["A"] = tuple(ov_a.my_estimated_wan) == w.public_address_of("A")
         obs = (cfg["placement"], cfg["ta"], tx, cfg["style"], punctured_first, first, second, reasons,
-               all(learnt.values()), cfg["warm"], cfg["ports"])
+               all(learnt.values()), cfg["warm"], cfg["ports"], cfg["via"])
         return {"viol": viol, "avail": avail, "obs": obs, "trace": trace, "introduced": x,
                 "offered": len(w.offered or ())}
     finally:
@@ -333,24 +352,29 @@ def base_configs(thorough: bool) -> list[dict]:
 
     When the forced choice is one of the extra candidates D_i, C is a bystander: its NAT kind cannot matter, so only
     tc = "port" is kept for those (all four kinds of A, and the three shared boxes).
+    via = "b-walked": B learnt C by walking to it (needs the public D1 as rendezvous, so k >= 2; only C is forced).
     """
     pairs = [("diff", ta, tc) for ta in NAT_KINDS for tc in NAT_KINDS]       # (none, none) = both public
     pairs += [("same", t, t) for t in NAT_KINDS if t != "none"]
+    # group = (style, port mode, warm/cold, candidate counts when X walked to B, candidate counts when B walked to C)
     if thorough:
-        groups = [(st, ports, warm, (1, 2, 3, 4, 5)) for st in ("old", "new")
-                  for ports, warm in (("shift", "warm"), ("shift", "cold"), ("keep", "warm"))]
-        groups += [(st, "shift", warm, (1, 2)) for st in ("A-new", "X-new") for warm in ("warm", "cold")]
+        groups = [(st, ports, warm, ks, kb) for st in ("old", "new")
+                  for ports, warm, ks, kb in (("shift", "warm", (1, 2, 3, 4, 5), (2, 4)),
+                                              ("shift", "cold", (1, 2, 3, 4, 5), (2, 4)),
+                                              ("keep", "warm", (1, 2, 3), (2,)))]
+        groups += [(st, "shift", warm, (1, 2), (2,)) for st in ("A-new", "X-new") for warm in ("warm", "cold")]
     else:
-        groups = [(st, "shift", warm, (1, 3)) for st in ("old", "new") for warm in ("warm", "cold")]
+        groups = [(st, "shift", warm, ks, (2,)) for st in ("old", "new") for warm, ks in (("warm", (1, 3)), ("cold", (1,)))]
     out = []
-    for style, ports, warm, ks in groups:
+    for style, ports, warm, ks, kb in groups:
         for placement, ta, tc in pairs:
-            for k in ks:
-                for pick in range(k):
-                    if pick > 0 and placement == "diff" and tc != "port":
-                        continue
-                    out.append({"placement": placement, "ta": ta, "tc": tc, "style": style, "k": k, "pick": pick,
-                                "ports": ports, "warm": warm})
+            for via, counts in (("x-walked", ks), ("b-walked", kb)):
+                for k in counts:
+                    for pick in range(k):
+                        if pick > 0 and (via == "b-walked" or (placement == "diff" and tc != "port")):
+                            continue
+                        out.append({"placement": placement, "ta": ta, "tc": tc, "style": style, "k": k, "pick": pick,
+                                    "ports": ports, "warm": warm, "via": via})
     return out
 
 
@@ -381,7 +405,7 @@ def explore_configs(chunk: list) -> list:
                     viols[key] = (what, {"cfg": cfg, "schedule": list(sched), "seed": _SEED, "depth": _DEPTH})
             if r.get("introduced"):
                 introduced.add(r["introduced"])
-                sigs.add(core.digest((r["obs"][:4], cfg["ports"], cfg["warm"], r["trace"])))
+                sigs.add(core.digest((r["obs"][:4], cfg["ports"], cfg["warm"], cfg["via"], r["trace"])))
                 classes.add(r["obs"])
             if sample is None:
                 sample = {"cfg": cfg, "schedule": list(sched), "introduced": r.get("introduced"),
@@ -396,7 +420,7 @@ def explore_configs(chunk: list) -> list:
 
 
 def _cfg_rank(cfg: dict) -> tuple:
-    return (cfg["k"], cfg["warm"] != "warm", cfg["style"] != "old", cfg["ports"] != "shift", cfg["placement"],
+    return (cfg["via"] != "x-walked", cfg["k"], cfg["warm"] != "warm", cfg["style"] != "old", cfg["ports"] != "shift", cfg["placement"],
             cfg["ta"], cfg["tc"], cfg["pick"])
 
 
@@ -457,7 +481,8 @@ def run(ctx: core.Ctx) -> core.Report:
         "bounds": {"nat_kinds": list(NAT_KINDS), "placements": ["different boxes (4x4, none/none = both public)",
                                                                "same box (3 cone kinds)"],
                    "styles": sorted({c["style"] for c in cfgs}), "candidates": sorted({c["k"] for c in cfgs}),
-                   "port_modes": sorted({c["ports"] for c in cfgs}), "requester": sorted({c["warm"] for c in cfgs})},
+                   "port_modes": sorted({c["ports"] for c in cfgs}), "requester": sorted({c["warm"] for c in cfgs}),
+                   "introducer_learnt_peer_by": sorted({c["via"] for c in cfgs})},
     }
     return core.Report(LEVEL, cov, violations, [
         "NAT model: endpoint-independent mapping, filtering none/full-cone/address-restricted/port-restricted, LAN "
